@@ -6,6 +6,8 @@ import (
 	"crypto/sha256"
 	"time"
 
+	"google.golang.org/grpc"
+
 	"github.com/drand/drand/v2/common"
 	"github.com/drand/drand/v2/common/key"
 	"github.com/drand/drand/v2/crypto"
@@ -66,6 +68,10 @@ func ZZ_C01_publicExits() {
 	bp := &BeaconProcess{opts: &Config{clock: clk}, priv: pairs[0], beaconID: "default", group: g, beacon: hd, chainHash: []byte{1, 2, 3}, log: zzfake.Logger(), version: common.GetAppVersion()}
 	proxy := Proxy(&zzPublic1{bp: bp})
 
+	if zz.Bool("exit.public_stream") {
+		zzPublicStreamExit(sch, g, bp, hd, held, prev, chained)
+		return
+	}
 	wanted := uint64(zz.Choose("requested_round", 10)) // 0 latest, 1..4 hole, 5..7 held, 8 next, 9 beyond
 	ctx, cancel := context.WithCancel(context.Background())
 	var res interface {
@@ -132,5 +138,63 @@ func ZZ_C01_publicExits() {
 	sum := sha256.Sum256(res.GetSignature())
 	zz.Assert("randomness_is_sha256_of_the_signature", bytes.Equal(res.GetRandomness(), sum[:]))
 	cancel()
+	hd.Stop(context.Background())
+}
+
+// zzRandStream records what the public randomness stream sends.
+type zzRandStream struct {
+	grpc.ServerStream
+	ctx  context.Context
+	sent []*drand.PublicRandResponse
+}
+
+func (s *zzRandStream) Send(r *drand.PublicRandResponse) error {
+	s.sent = append(s.sent, r)
+	return nil
+}
+func (s *zzRandStream) Context() context.Context { return s.ctx }
+
+// zzPublicStreamExit: the public randomness stream (PublicRandStream -> beacon.SyncChain -> proxyStream.Send).
+// From a held round it replays the stored beacons and then follows live; every item is the stored beacon of
+// its round, verifies, carries randomness = SHA-256(signature), and rounds are consecutive.
+func zzPublicStreamExit(sch *crypto.Scheme, g *key.Group, bp *BeaconProcess, hd *beacon.Handler, held []*common.Beacon, prev []byte, chained bool) {
+	ctx, cancel := context.WithCancel(context.Background())
+	st := &zzRandStream{ctx: ctx}
+	from := uint64(5 + zz.Choose("stream.from", 3)) // 5..7
+	var ret error
+	done := false
+	go func() {
+		ret = bp.PublicRandStream(&drand.PublicRandRequest{Round: from}, st)
+		done = true
+	}()
+	zz.Quiesce()
+	all := append([]*common.Beacon{}, held...)
+	ep := zzfake.Deal(sch, 2, 2, "c01p-secret", "c01p-poly")
+	for r := uint64(8); r <= 9; r++ {
+		b := &common.Beacon{Round: r, Signature: zzfake.SignBeacon(sch, ep, r, prev)}
+		if chained {
+			b.PreviousSig = prev
+		}
+		if err := hd.Store().Put(context.Background(), b); err != nil {
+			panic(err)
+		}
+		all = append(all, b)
+		prev = b.Signature
+		zz.Quiesce()
+	}
+	cancel()
+	zz.Quiesce()
+	zz.Assert("stream_ends_when_the_client_goes", done && ret != nil)
+	zz.Assert("stream_delivers_stored_then_live_rounds", len(st.sent) == int(9-from+1))
+	pub := g.PublicKey.Key()
+	for i, it := range st.sent {
+		want := all[int(from-5)+i]
+		zz.Assert("stream_rounds_are_consecutive_from_the_requested_one", it.GetRound() == from+uint64(i))
+		zz.Assert("stream_item_is_the_stored_beacon", bytes.Equal(it.GetSignature(), want.Signature) && bytes.Equal(it.GetPreviousSignature(), want.PreviousSig))
+		vb := &common.Beacon{Round: it.GetRound(), Signature: it.GetSignature(), PreviousSig: it.GetPreviousSignature()}
+		zz.Assert("stream_item_verifies_under_the_group_key", sch.VerifyBeacon(vb, pub) == nil)
+		sum := sha256.Sum256(it.GetSignature())
+		zz.Assert("stream_randomness_is_sha256_of_the_signature", bytes.Equal(it.GetRandomness(), sum[:]))
+	}
 	hd.Stop(context.Background())
 }
